@@ -283,6 +283,77 @@ def truth_tests_of(fnode, name):
     return hits
 
 
+def rule_G_PROBE(ctx, repo):
+    """G-PROBE: two guards of _keygen that run on every call.
+    (a) the test "could the signature be inspected" is an identity test against None: a successfully inspected function without named parameters and
+        defaults yields ((), {}), which is falsy - tested by truthiness it is taken for an uninspectable callable and the ignore specification is skipped;
+    (b) the probe "is the first positional the bound instance" runs the argument's own __getattr__ / __eq__, which may raise anything: its handler is
+        generic (bare / Exception / BaseException) - narrowed to named exceptions, a record-like argument whose __getattr__ raises KeyError makes key
+        generation fail for the positional spelling of a call only."""
+    m = repo.mod('_inspect')
+    fi = m.functions.get('_keygen')
+    if fi is None:
+        raise AnalysisError('anchor vanished: klepto/_inspect.py::_keygen')
+    fn = fi.node
+    sigvars = set()
+    for n_ in ast.walk(fn):
+        if isinstance(n_, ast.Assign) and isinstance(n_.value, ast.Call) and unparse(n_.value.func).split('.')[-1] in ('signature', '_signature') \
+                and len(n_.targets) == 1 and isinstance(n_.targets[0], ast.Tuple):
+            sigvars |= set(x.id for x in n_.targets[0].elts if isinstance(x, ast.Name))
+    na = 0
+    for n_ in ast.walk(fn):
+        if isinstance(n_, ast.If) and any(isinstance(x, ast.Return) for x in n_.body) and sigvars & set(x.id for x in ast.walk(n_.test) if isinstance(x, ast.Name)):
+            na += 1
+            atoms = []
+
+            def flat(t):
+                if isinstance(t, ast.BoolOp):
+                    for v in t.values:
+                        flat(v)
+                else:
+                    atoms.append(t)
+            flat(n_.test)
+            bad = [t for t in atoms if not (isinstance(t, ast.Compare) and len(t.ops) == 1 and isinstance(t.ops[0], (ast.Is, ast.IsNot))
+                                            and isinstance(t.comparators[0], ast.Constant) and t.comparators[0].value is None)]
+            ctx.ob('G-FORMS', 'failed inspection is recognised by `is None`', not bad)
+            if bad:
+                ctx.fail('G-FORMS', fi.qual, 'inspection failure tested by truthiness',
+                         '_keygen takes `%s` for "the signature could not be inspected": a function without named parameters and defaults (def f(*args, **kwds), a '
+                         'variadic lambda) inspects fine as ((), {}), which is falsy too - it takes the early exit and the ignore specification is never applied to it'
+                         % ' '.join(unparse(n_.test).split())[:60], '%s:%d' % (m.rel, n_.lineno))
+    nb = 0
+    params = set([fn.args.vararg.arg]) if fn.args.vararg else set()
+    for n_ in ast.walk(fn):
+        if isinstance(n_, ast.Assign) and any(isinstance(x, ast.Name) and x.id in params for x in ast.walk(n_.value)):
+            params |= set(x.id for t in n_.targets for x in ast.walk(t) if isinstance(x, ast.Name))
+    for n_ in list(ast.walk(fn)):
+        probes = []
+        handlers = None
+        if isinstance(n_, ast.Try):
+            probes = [x for st in n_.body for x in ast.walk(st) if isinstance(x, ast.Call) and isinstance(x.func, ast.Name) and x.func.id == 'getattr' and x.args
+                      and any(isinstance(y, ast.Name) and y.id in params for y in ast.walk(x.args[0]))]
+            handlers = n_.handlers
+            generic = any(h.type is None or unparse(h.type) in ('Exception', 'BaseException') for h in handlers)
+        elif isinstance(n_, ast.With):
+            probes = [x for st in n_.body for x in ast.walk(st) if isinstance(x, ast.Call) and isinstance(x.func, ast.Name) and x.func.id == 'getattr' and x.args
+                      and any(isinstance(y, ast.Name) and y.id in params for y in ast.walk(x.args[0]))]
+            sup = [it.context_expr for it in n_.items if isinstance(it.context_expr, ast.Call) and unparse(it.context_expr.func).split('.')[-1] == 'suppress']
+            if not sup:
+                continue
+            generic = any(unparse(a_) in ('Exception', 'BaseException') for c_ in sup for a_ in c_.args)
+        if not probes:
+            continue
+        nb += 1
+        ctx.ob('G-FORMS', 'the bound-instance probe tolerates whatever the argument raises', generic)
+        if not generic:
+            ctx.fail('G-FORMS', fi.qual, 'probe of the first argument catches named exceptions only',
+                     '_keygen looks up an attribute of the caller\'s first positional argument (%s) and compares it - this runs the argument\'s own __getattr__ and __eq__ '
+                     '- inside a handler that names its exceptions: an argument whose __getattr__ raises something else (a record object raising KeyError) makes key '
+                     'generation fail when it is passed positionally, while the keyword spelling of the same call is keyed: the two spellings no longer share an entry'
+                     % ' '.join(unparse(probes[0]).split())[:50], '%s:%d' % (m.rel, n_.lineno))
+    ctx.ob('G-FORMS', '_keygen guards examined (%d inspection tests, %d probes)' % (na, nb), True)
+
+
 def rule_G_ZERO(ctx, repo):
     """G-FORMS (bare index 0): the ignore specification may be a single bare index, and 0 - the first parameter - is falsy.  Neither _keygen nor
     the decorators that store the specification decide anything by its truthiness before it is wrapped into a sequence."""
@@ -326,7 +397,11 @@ def rule_K_CAPTURE(ctx, repo):
     for modname, names in CARRIERS.items():
         m = repo.mod(modname)
         for f in ast.walk(m.tree):
-            if not isinstance(f, ast.FunctionDef) or f.name not in names or not (f.args.vararg and f.args.kwarg):
+            if not isinstance(f, ast.FunctionDef) or not (f.args.vararg and f.args.kwarg):
+                continue
+            # by name, or (rounding helpers) by shape: takes (*args, **kwds) and hands back an (args, kwds) pair
+            pair = modname == 'rounding' and any(isinstance(r, ast.Return) and isinstance(r.value, ast.Tuple) and len(r.value.elts) == 2 for r in ast.walk(f))
+            if f.name not in names and not pair:
                 continue
             n += 1
             extra = [x.arg for x in f.args.posonlyargs + f.args.args if x.arg not in ('self', 'func', 'ignored')] + [x.arg for x in f.args.kwonlyargs]
